@@ -44,6 +44,18 @@ def translate(chk):
     if out["signals"]:
         st["signals"] = "safe_exit registered for " + ", ".join(out["signals"])
     try:
+        out["regs"] = c13_handler.registrations()
+        st["regs"] = "translated: " + out["regs"][0]
+    except Declined as e:
+        out["regs"] = None
+        st["regs"] = f"declined: {e}"
+    out["stmts"] = {}
+    for fn in ("consume_sample", "insert_live_point", "finalise"):
+        try:
+            out["stmts"][fn] = c13_handler.stmt_index(SRC_NS, "NestedSampler", fn)
+        except Declined:
+            out["stmts"][fn] = {}
+    try:
         rows = c13_handler.exit_interceptors()
         out["interceptors"] = rows
         bad = [r for r in rows if c13_handler.intercepts(r)]
@@ -91,8 +103,16 @@ def today(chk, tr):
             lists = re.findall(r"\[([^\]]*)\]", parts)
             if len(lists) == 4:
                 summary = [common.parse_nat_list("[" + l + "]") for l in lists]
+        out_w = None if summary is None else summary[2]
+        chk.oblige("today: no unbalanced boundary of the regenerated iteration lies outside the recorded window (state.increment "
+                   "/ nested_samples.append done, index not recorded, and once the new point is written the index is "
+                   "recorded by the very next statement)", "today", out_w == [],
+                   "boundaries outside: " + str(out_w) + " of " + lm["coq"] + "; statements: " +
+                   "; ".join(f"{k}: before `{lm['texts'][k]}`" for k in (out_w or []) if k < len(lm["texts"])))
     else:
-        chk.notes.append("tie A (iteration) declined: the line hook decides alone")
+        chk.oblige("today: every boundary of the regenerated iteration is classified + no unsafe boundary outside the "
+                   "recorded windows - CANNOT BE EVALUATED", "today", False,
+                   "the translator declined consume_sample / insert_live_point / yield_sample: " + chk.translator.get("line_map", ""))
     if tr["handler"] and tr["npw"] is not None:
         txt = HDR + f"Definition h_now : list heff := {tr['handler'][0]}.\n"
         txt += f"Lemma today : handler_ok {cB(tr['npw'])} h_now = true.\nProof. vm_compute. reflexivity. Qed.\n"
@@ -106,7 +126,8 @@ def today(chk, tr):
                    "reaches the dump, then exit with the configured code) + instantiated handler_sound", "today", ok,
                    (err or "") + "\n" + tr["handler"][0])
     else:
-        chk.notes.append("tie A (handler) declined: the line hook decides alone")
+        chk.oblige("today: handler_ok (regenerated safe_exit / terminate_run) - CANNOT BE EVALUATED", "today", False,
+                   f"translator: handler {chk.translator.get('handler')}; forced checkpoint branch {chk.translator.get('npw')}")
     if tr["ins"]:
         txt = HDR + f"Definition i_now : list ieff := {tr['ins']}.\n"
         txt += "Lemma today : ins_ckpt_ok i_now = true.\nProof. vm_compute. reflexivity. Qed.\n"
@@ -116,7 +137,8 @@ def today(chk, tr):
         chk.oblige("today: ins_ckpt_ok (regenerated ImportanceNestedSampler.checkpoint: the forced branch returns before "
                    "any file operation) + instantiated ins_intact", "today", ok, (err or "") + "\n" + tr["ins"])
     else:
-        chk.notes.append("tie A (INS checkpoint) declined: the line hook decides alone")
+        chk.oblige("today: ins_ckpt_ok (regenerated ImportanceNestedSampler.checkpoint) - CANNOT BE EVALUATED", "today", False,
+                   str(chk.translator.get("ins")))
     if tr.get("interceptors") is not None and tr["handler"] and tr["npw"] is not None:
         import c13_handler
         rows = tr["interceptors"]
@@ -135,9 +157,21 @@ def today(chk, tr):
                    "of the package intercepts the SystemExit the handler raises) + instantiated exit_reaches_top", "today", ok,
                    (err or "") + " intercepting: " + "; ".join(f"{r[0]}:{r[1]} in {r[2]} ({r[3]}, guarded lines {r[5]}-{r[6]})" for r in bad))
     else:
-        chk.notes.append("tie A (exit path) declined: the line hook decides alone")
-    if tr["signals"] is None:
-        chk.notes.append("signal registration not recognised by the translator")
+        chk.oblige("today: no_swallow (constructs that can intercept SystemExit) - CANNOT BE EVALUATED", "today", False,
+                   str(chk.translator.get("exit_interceptors")))
+    if tr.get("regs"):
+        txt = HDR + f"Definition regs_now : list reg := {tr['regs'][0]}.\n"
+        txt += "Lemma today : regs_ok regs_now = true.\nProof. vm_compute. reflexivity. Qed.\n"
+        txt += ("Lemma today_property : forall n s, after_samplers regs_now (S n) s = Some n.\n"
+                "Proof. exact (regs_sound regs_now today). Qed.\n")
+        ok, _, err = chk.coq_run("today_registration", txt)
+        chk.oblige("today: regs_ok (FlowSampler.__init__ registers self.safe_exit for SIGTERM, SIGINT and SIGALRM, none of "
+                   "them under a condition: the handler that runs belongs to the sampler created last) + instantiated "
+                   "regs_sound", "today", ok, (err or "") + " registrations: " +
+                   "; ".join(f"{sg}{' (conditional)' if c else ''} line {ln}" for sg, c, ln in tr["regs"][1]))
+    else:
+        chk.oblige("today: regs_ok (registration of safe_exit for SIGTERM / SIGINT / SIGALRM) - CANNOT BE EVALUATED", "today",
+                   False, str(chk.translator.get("regs")))
     return summary
 
 
@@ -229,6 +263,15 @@ def build_tasks(chk, tr):
                 if t2 == txt:
                     tasks.append({"sampler": "standard", "phase": "real-signal", "func": "NestedSampler.consume_sample",
                                   "lineno": ln, "text": txt, "occ": occ, "after": 9, "real_signal": True})
+    # the handler the process has REGISTERED (os.kill), with earlier FlowSamplers created and run in the same
+    # process (a pipeline / an in-process resume): the signal must be handled by the sampler that is running
+    first = [l for l in lines(SRC_NS, "NestedSampler", "consume_sample")][:1]
+    combos = [("SIGTERM", 1), ("SIGINT", 0)] if quick else [(sg, n) for sg in ("SIGTERM", "SIGINT", "SIGALRM") for n in (0, 1, 2)]
+    for sg, npri in combos:
+        for ln, txt, occ in first:
+            tasks.append({"sampler": "standard", "phase": "registered-handler", "func": "NestedSampler.consume_sample",
+                          "lineno": ln, "text": txt, "occ": occ, "after": 7, "real_signal": True, "signum": sg,
+                          "prior_samplers": npri})
     # importance sampler: every statement of the loop body, at the second (and later) iteration
     ins_lines = lines(SRC_INS, "ImportanceNestedSampler", "nested_sampling_loop", only_loop_body=True)
     if quick:
@@ -287,9 +330,15 @@ def verdict_standard(o):
         bad.append(f"the handler exited with code {o.get('exit')}, configured {EXIT_CODE}")
     if o.get("checkpoint") is None:
         bad.append("no loadable checkpoint was left: " + str(o.get("checkpoint_error")))
+    ck = o.get("checkpoint")
+    if ck and b and not ck.get("finalised") and not (b["iteration"] <= ck["iteration"] <= b["iteration"] + 1):
+        bad.append(f"the checkpoint is at iteration {ck['iteration']}, the signal arrived in iteration {b['iteration'] + 1} "
+                   "(not a checkpoint of the running sampler's current state)")
     if not f or not f.get("completed"):
         bad.append("the resumed run did not finish: " + str((f or {}).get("error", o.get("resume_exit"))))
         return bad
+    if ck and f.get("resumed_iteration") != ck["iteration"]:
+        bad.append(f"resumed at iteration {f.get('resumed_iteration')}, the checkpoint was written at iteration {ck['iteration']}")
     ids = f["ids"]
     if len(set(ids)) != len(ids):
         bad.append(f"{len(ids) - len(set(ids))} nested sample(s) recorded twice after resume")
@@ -325,19 +374,31 @@ def verdict_ins(o):
     return bad
 
 
-def failure_key(o, d):
-    """semantic identity of an unsafe signal: the known windows are recognised from the checkpoint itself"""
-    stack = o["inject"].get("stack") or []
-    c = o.get("checkpoint") or {}
+def statement_of(o, stmts):
+    """-> (mode, function, normalised statement): the statement of consume_sample / insert_live_point / finalise the
+    signal was delivered before, or inside which (a callee of it) it was delivered; None outside them"""
+    frames = o["inject"].get("frames") or []
+    roots = ("consume_sample", "insert_live_point", "finalise")
+    for depth, (name, ln, fname) in enumerate(frames):
+        if name in roots and fname == "nestedsampler.py":
+            txt = (stmts.get(name) or {}).get(ln) or f"line {ln}"
+            return ("before" if depth == 0 else "inside"), name, " ".join(txt.split())
+    return None
+
+
+def failure_key(o, d, stmts):
+    """Semantic identity of an unsafe signal = the statement of the iteration (function + normalised text, no line
+    numbers) before / inside which it was delivered.  Which of these are known findings is decided by
+    known_findings.d/C13.json alone (key_regex over the statements that are unsafe on the pinned tree)."""
     if o.get("exit") != EXIT_CODE:
         return "C13:standard:exit-code"
-    if "finalise" in stack or (c and not c.get("finalised") and c.get("live") is None):
-        return KEY_FIN
-    if d is not None and (d[0] or d[1]) and not d[3] and "consume_sample" in stack:
-        return KEY_D2
     t = o["task"]
+    so = statement_of(o, stmts)
+    if so is not None:
+        mode, fn, txt = so
+        return f"C13:standard:unsafe:{mode}:{fn}:{txt[:120]}"
     sig = "".join("1" if x else "0" for x in d) if d is not None else "nockpt"
-    return f"C13:standard:unsafe:{sig}:{t['func']}:{t['text'][:60]}"
+    return f"C13:standard:unsafe:outside-iteration:{sig}:{t['func']}:{' '.join(t['text'].split())[:80]}"
 
 
 # ---------------------------------------------------------------------------------------------
@@ -371,6 +432,7 @@ def run(chk):
         return
     chk.evaluations = len(tasks)
     icases, ocases, reached = [], [], 0
+    unsafe_keys = set()
     for t, o in zip(tasks, outs):
         if o.get("harness_error"):
             chk.oblige("injection task ran", "harness", False, o["harness_error"])
@@ -401,7 +463,8 @@ def run(chk):
         if d is not None and (any(d) or t["func"] != "NestedSampler.consume_sample"):
             chk.nontriv((t["phase"], t["func"], t["text"]))
         if not safe:
-            key = failure_key(o, d)
+            key = failure_key(o, d, tr.get("stmts") or {})
+            unsafe_keys.add(key)
             chk.fail(key, f"standard sampler ({t['phase']}, call {inj.get('calls')}), signal before `{t['text']}` in "
                           f"{t['func']}: " + "; ".join(bad), {"task": t, "failure_key": key})
         if d is None:
@@ -419,6 +482,7 @@ def run(chk):
                 k = lm["kdraw"]
             if k is not None:
                 icases.append((cT(cN(k), cT(*map(cB, d)), cB(safe)), t))
+    chk.notes.append("unsafe signals observed (semantic keys): " + " || ".join(sorted(unsafe_keys)))
     chk.traces = reached
     chk.count("lines reached", reached)
     # ---- correspondence inside Coq -----------------------------------------------------------
@@ -430,6 +494,9 @@ def run(chk):
             txt += "Eval vm_compute in (mism (chk_delta effs_now) ic).\nEval vm_compute in (mism (chk_verdict effs_now) ic).\n"
         txt += f"Definition oc : list (obs_delta * bool) := {cL(ocases)}.\nEval vm_compute in (mism chk_obs_verdict oc).\n"
         ok, evals, err = chk.coq_run("cases", txt)
+        if not lm:
+            chk.oblige("correspondence: checkpoint = model state after k effects / model verdict = observed verdict - CANNOT BE "
+                       "EVALUATED (no regenerated effect list)", "correspondence", False, chk.translator.get("line_map", ""))
         want = 3 if lm else 1
         if not ok or len(evals) != want:
             chk.oblige("correspondence batch evaluated in Coq", "correspondence", False, err)
@@ -460,6 +527,10 @@ def run(chk):
                     "exit": o.get("exit"), "reached": bool(o.get("inject") and o["inject"].get("reached")),
                     "delta": observed_delta(o) if o.get("inject") and o["inject"].get("reached") and t["sampler"] != "ins" else None,
                     "final": {k: v for k, v in (o.get("final") or {}).items() if k not in ("ids", "tb")}}, limit=6)
+
+
+class _Dummy:
+    translator, notes = {}, []
 
 
 # ---------------------------------------------------------------------------------------------
@@ -502,7 +573,7 @@ def replay(data):
     key = None
     if bad:
         key = ("C13:ins:" + ("checkpoint-modified" if "modified" in bad[0] else "exit-code" if "exited" in bad[0] else "resume-failed")
-               if t["sampler"] == "ins" else failure_key(o, d))
+               if t["sampler"] == "ins" else failure_key(o, d, translate(_Dummy()).get("stmts") or {}))
     known = [k["key"] for k in common.load_known() if k.get("property") == PID and k.get("status", "open") == "open"]
     print(json.dumps({"task": t, "exit": o.get("exit"), "delta(st,de,it,ai,live changed,new present)": d,
                       "observed_key": key, "observed_key_is_a_known_finding": key in known,
